@@ -972,6 +972,8 @@ func rulesC03(w *World, r *Report) {
 		}
 		r.Check(okDom, "C03.R2", "UpdatePointForArchive:check-first", w.instrPos(lo.At), "the range check precedes every write", "a write can happen before the range check")
 	}
+	// one reading of the package's clock per write, whichever entry point is used
+	ruleOneClockReading(w, r, "C03.R2", "Whisper.Update", "Whisper.UpdateMany", "Whisper.UpdatePointForArchive", "Whisper.UpdatePointsForArchive")
 	// findBestArchive receives t itself (single update) and the unclamped from (fetch): C03.R4 / C04.R4
 	r.Rule("C03.R4", "derives-from: findBestArchive receives the point's own timestamp; each archive is written with result #0 of extractPoints applied to what the previous archive left (result #1), the loop index as archive id and the same now", 4)
 	fba := fn(w.Lib, "Whisper.findBestArchive")
